@@ -249,7 +249,8 @@ def judge(rep, behaviours, trace):
     drifting = []
     for kind, tid, line, action, name in res['fails']:
         if kind == 'I':
-            rep.drift({'behaviour': tid, 'line': line, 'action': action, 'what': name})
+            rep.drift({'behaviour': tid, 'line': line, 'action': action, 'what': name,
+                       'obs': lines.get(line, {}).get('obs'), 'args': lines.get(line, {}).get('args')})
             if by_id[tid] not in drifting:
                 drifting.append(by_id[tid])
             continue
